@@ -474,6 +474,35 @@ func init() {
 		x.vc.Assert(Implies(Ge(r, IntLit(0)), Eq(x.strAt(s, r), c)))
 		return VTerm{r}, true
 	})
+	// strings.Builder: a local accumulator; its methods touch nothing but the builder itself
+	for _, n := range []string{"WriteString", "WriteByte", "WriteRune", "Write", "Len", "String", "Grow", "Reset", "Cap"} {
+		libFrames["(*strings.Builder)."+n] = map[string]Sort{}
+	}
+	regModel("strings.IndexRune", func(x *Exec, fr *Frame, st *State, a []Value, pos token.Pos, rt types.Type) (Value, bool) {
+		s := tOf(a[0])
+		r := x.vc.Fresh("indexr", SInt)
+		x.vc.Assert(And(Ge(r, IntLit(-1)), Lt(r, Ite(Eq(sLen(s), IntLit(0)), IntLit(0), sLen(s)))))
+		return VTerm{r}, true
+	})
+	regModel("strings.Split", func(x *Exec, fr *Frame, st *State, a []Value, pos token.Pos, rt types.Type) (Value, bool) {
+		// a new slice of at least one element (sep is non-empty at every call site of interest:
+		// for an empty separator the result may be empty)
+		r := x.fresh(rt, "split").(VSlice)
+		ref := x.newRef(fr)
+		r.Back = Backing{Heap: true, Ref: ref}
+		x.assume(st, And(Eq(r.Off, IntLit(0)), Implies(Gt(sLen(tOf(a[1])), IntLit(0)), Ge(r.Len, IntLit(1)))))
+		return r, true
+	})
+	libFrames["strings.Split"] = map[string]Sort{}
+	regModel("strings.Join", func(x *Exec, fr *Frame, st *State, a []Value, pos token.Pos, rt types.Type) (Value, bool) {
+		// pure: reads its arguments, returns a new string
+		r := x.vc.Fresh("joined", SStr)
+		x.vc.strFacts(r)
+		if s, ok := a[0].(VSlice); ok {
+			x.assume(st, Implies(Eq(s.Len, IntLit(0)), Eq(r, Term{"sEmpty", SStr})))
+		}
+		return VTerm{r}, true
+	})
 	regModel("strings.Count", func(x *Exec, fr *Frame, st *State, a []Value, pos token.Pos, rt types.Type) (Value, bool) {
 		s := tOf(a[0])
 		r := x.vc.Fresh("count", SInt)
